@@ -274,6 +274,14 @@ func c06ScanTree(repo string) ([]c06Finding, error) {
 			}
 			ast.Inspect(body, func(n ast.Node) bool {
 				switch x := n.(type) {
+				case *ast.CallExpr:
+					// arguments of a telemetry call (cosmos-sdk/telemetry: gauges, counters, ModuleMeasureSince) never reach
+					// consensus state: floats and wall-clock readings inside them are exempt, wherever the call is written
+					if sel, ok := x.Fun.(*ast.SelectorExpr); ok {
+						if id, ok := sel.X.(*ast.Ident); ok && id.Name == "telemetry" {
+							return false
+						}
+					}
 				case *ast.AssignStmt:
 					for j, rhs := range x.Rhs {
 						if j >= len(x.Lhs) {
@@ -399,18 +407,12 @@ func c06StaticScan(e *Env) {
 // The occurrences in the tree the check was built against (telemetry, the tps counter, simulation helpers).
 // Regenerate with VERIF_C06_SCAN_DUMP=1 after reviewing every new entry by hand.
 var c06ScanAllowed = map[string]int{
-	"app/app.go | Canto.GetStoreKeys | range-over-map app.keys":             1,
-	"app/app.go | NewCanto | go-statement":                                  1,
-	"app/sim_utils.go | (imports) | math/rand":                              1,
-	"app/state.go | (imports) | math/rand":                                  1,
-	"app/state.go | AppStateFn | math/rand use":                             1,
-	"app/state.go | AppStateRandomizedFn | math/rand use":                   2,
-	"app/tps_counter.go | tpsCounter.start | float":                         3,
-	"x/epochs/keeper/abci.go | Keeper.BeginBlocker | time.Now":              1,
-	"x/erc20/keeper/msg_server.go | Keeper.convertCoinNativeCoin | float":   1,
-	"x/erc20/keeper/msg_server.go | Keeper.convertCoinNativeERC20 | float":  1,
-	"x/erc20/keeper/msg_server.go | Keeper.convertERC20NativeCoin | float":  1,
-	"x/erc20/keeper/msg_server.go | Keeper.convertERC20NativeToken | float": 1,
-	"x/erc20/types/utils.go | (imports) | math/rand":                        1,
-	"x/inflation/keeper/hooks.go | Keeper.AfterEpochEnd | float":            3,
+	"app/app.go | Canto.GetStoreKeys | range-over-map app.keys": 1,
+	"app/app.go | NewCanto | go-statement":                      1,
+	"app/sim_utils.go | (imports) | math/rand":                  1,
+	"app/state.go | (imports) | math/rand":                      1,
+	"app/state.go | AppStateFn | math/rand use":                 1,
+	"app/state.go | AppStateRandomizedFn | math/rand use":       2,
+	"app/tps_counter.go | tpsCounter.start | float":             3,
+	"x/erc20/types/utils.go | (imports) | math/rand":            1,
 }
